@@ -1,4 +1,5 @@
 import Juniper.Proofs.TreeHistory
+import Juniper.Proofs.TreeSlots
 /-!
 # C03 — the tree stays balanced and half-full: O(log n) work, no retained garbage (property theorems)
 -/
@@ -129,5 +130,32 @@ example : ∃ t' : Tree Int Int,
   refine ⟨t', h1, ?_⟩
   rw [h3]
   simp [specMut, sput, serase, Tree.empty, toList_leaf]
+
+/-- "Keys and values that were deleted or moved elsewhere are no longer referenced from the live structure", slot
+level (**partial**). Full statement: *for every history, in every node of the reachable tree each of the three fixed
+arrays is `Clean`: its live prefix followed only by zero slots* (`no_retained_slots`). Proved here: every array
+primitive and every node-level array surgery of `btree.go` — written as in the source, with each zeroing statement
+guarded by its regenerated presence fact — maps a clean array to a clean array whose live prefix is the list-level
+result the tree model uses (leaf insert, remove, `removeRightmost`, both sides of both rotations, both sides of
+`mergeTwo`, the left/right halves of `overfill` incl. the aliasing write loop, the parent insert; all in
+`Proofs/TreeSlots.lean`), and in a clean array no slot at index `≥ n` references anything (`tail_cleared`).
+Missing for the full statement: the composition of these per-array lemmas along `ins`/`del` over whole trees; that
+link is covered on every run by the correspondence (raw slots of the hook dump, pointer-typed keys/values) and the
+`c03-retained` monitor. -/
+theorem no_retained_slots_partial {α : Type} {cap : Nat} {live : List α} {arr : List (Option α)} (hc : Clean cap live arr) :
+    (∀ i, live.length ≤ i → i < cap → arr[i]? = some none) ∧
+    (∀ idx, idx < live.length →
+      Clean cap (live.take idx ++ live.drop (idx + 1)) (Juniper.Model.BTreeSlots.remove arr live.length idx)) ∧
+    (∀ (x : α) idx, idx ≤ live.length → live.length < cap →
+      Clean cap (live.take idx ++ x :: live.drop idx) (Juniper.Model.BTreeSlots.leafInsert arr live.length idx (some x))) ∧
+    (0 < live.length → Clean cap live.dropLast (Juniper.Model.BTreeSlots.removeRightmostKeys arr live.length)) ∧
+    (0 < live.length → Clean cap live.dropLast (Juniper.Model.BTreeSlots.rotateRightDonorKeys arr live.length)) ∧
+    (0 < cap → Clean cap (live.drop 1) (Juniper.Model.BTreeSlots.rotateLeftDonor arr)) :=
+  ⟨tail_cleared hc, fun _ h => slots_refine_remove hc h, fun x _ h1 h2 => slots_refine_leafInsert x hc h1 h2,
+   fun h => slots_refine_removeRightmost hc h, fun h => slots_refine_rotateRight_donor hc h,
+   fun h => slots_refine_rotateLeft_donor hc h⟩
+
+/-- non-vacuity: a clean array with two live slots out of four. -/
+example : Clean 4 [(1 : Nat), 2] [some 1, some 2, none, none] := ⟨by decide, by decide⟩
 
 end Juniper.Props.C03
